@@ -4,6 +4,8 @@ import ast
 
 import z3
 
+from . import pyvc
+
 from .pyvc import (BreakSig, ContinueSig, Frame, ListModel, OutOfSubset, PathEnd, VBool, VDict, VInt, VList, VObj, VOpaque, VStr, VTuple,
                    is_true, simp)
 
@@ -332,15 +334,29 @@ def exec_for(eng, node, fr):
         x = eng.list_elem(it, m, i.t)
         eng.assign_target(node.target, x, fr, node)
         broke = False
+        visit_all = getattr(spec, "must_exhaust", None)
         try:
             try:
                 eng.exec_block(node.body, fr)
             except ContinueSig:
                 pass
+            except (pyvc.RaiseSig, pyvc.ReturnSig):
+                if visit_all:
+                    # the loop is left before the remaining elements were visited (exception / return out of the body)
+                    eng.oblige("%s/each-element-visited:%s" % (label, visit_all), z3.BoolVal(False),
+                               clause="no exception or return leaves the loop before every element of the collection was processed", kind="loop-inv")
+                raise
         except BreakSig:
             broke = True
+            if visit_all:
+                eng.oblige("%s/each-element-visited:%s" % (label, visit_all), z3.BoolVal(False),
+                           clause="no break leaves the loop before every element of the collection was processed", kind="loop-inv")
         if broke:
             return
+        if visit_all:
+            # the same obligation, trivially true on the iterations that run to their end (so that it exists on the unchanged tree)
+            eng.oblige("%s/each-element-visited:%s" % (label, visit_all), z3.BoolVal(True),
+                       clause="no exception, return or break leaves the loop before every element of the collection was processed", kind="loop-inv")
         for pname in getattr(spec, "establishes", []):
             eng.oblige("%s/establishes:%s" % (label, pname), eng.reg.elem_preds[pname](eng, eng.force(x)),
                        clause="an element that passes one full iteration satisfies %s" % pname, kind="loop-inv")
